@@ -593,6 +593,82 @@ pub struct C20Scenario {
 
 pub struct C20;
 
+/// Applied to the finished scenario (own generator, so that existing seeds keep their scenarios otherwise):
+/// one small world in five gets target names that nest and share string prefixes (`rust`, `rust/core`, `rustfmt`,
+/// `rustfmt/cli`, `app`, `apps/web`, ...) with a listener filter that names the short ones: a filter value admits the
+/// target of exactly that name; and in one scenario in three one line in six ends in blanks (spaces, tabs, a
+/// no-break or an ideographic space) before its newline: a listener must not tidy lines up.
+fn c20_names_and_blanks(sc: &mut C20Scenario, seed: u64, idx: usize) {
+    let mut rng = Rng::new(scenario_seed(seed, "C20-names", idx));
+    let pool = ["rust", "rust/core", "rustfmt", "rustfmt/cli", "rusty", "app", "apps/web", "app/web", "app-web", "lib", "lib/x/y", "libs"];
+    let mut map: BTreeMap<String, String> = BTreeMap::new();
+    if sc.spec.targets.len() <= pool.len() && rng.chance(1, 5) {
+        for (i, t) in sc.spec.targets.iter().enumerate() {
+            map.insert(t.path.clone(), pool[i].to_string());
+        }
+    }
+    let blanks = rng.chance(1, 3);
+    let ren = |t: &mut String| {
+        if let Some(n) = map.get(t) {
+            *t = n.clone();
+        }
+    };
+    for t in sc.spec.targets.iter_mut() {
+        ren(&mut t.path);
+    }
+    for f in sc.spec.cmd_files.iter_mut() {
+        ren(&mut f.target);
+        f.rel = WorldSpec::default_cmd_rel(&f.target, &f.command);
+    }
+    sc.script.opts.targets.iter_mut().for_each(ren);
+    sc.listener.targets.iter_mut().for_each(ren);
+    if !map.is_empty() && rng.chance(1, 2) {
+        // the short names that are string prefixes of other targets
+        sc.listener.targets = ["rust", "app", "lib"].iter().map(|s| s.to_string()).filter(|s| sc.spec.targets.iter().any(|t| t.path == *s)).collect();
+    }
+    let mut scripts: Vec<&mut RunScript> = vec![&mut sc.script];
+    if let Some(s2) = sc.second.as_mut() {
+        scripts.push(s2);
+    }
+    for script in scripts {
+        for b in script.behav.iter_mut() {
+            let old = b.target.clone();
+            ren(&mut b.target);
+            let (from, to) = (format!("@{} ", old), format!("@{} ", b.target));
+            for o in b.outs.iter_mut() {
+                if o.close {
+                    continue;
+                }
+                let bytes = crate::proto::unhex(&o.hex);
+                if bytes.len() > 1_000_000 {
+                    continue;
+                }
+                let mut text = match String::from_utf8(bytes) {
+                    Ok(t) => t,
+                    Err(_) => continue,
+                };
+                if from != to {
+                    text = text.replace(&from, &to);
+                }
+                if blanks {
+                    let mut out = String::with_capacity(text.len() + 64);
+                    for line in text.split_inclusive('\n') {
+                        if line.ends_with('\n') && rng.chance(1, 6) {
+                            out.push_str(&line[..line.len() - 1]);
+                            out.push_str(*rng.pick(&[" ", "  ", "\t", " \t ", "\u{a0}", "\u{3000}", "\u{c}"]));
+                            out.push('\n');
+                        } else {
+                            out.push_str(line);
+                        }
+                    }
+                    text = out;
+                }
+                o.hex = hex(text.as_bytes());
+            }
+        }
+    }
+}
+
 fn gen_c20(seed: u64, idx: usize, tier: Tier) -> C20Scenario {
     let mut rng = Rng::new(scenario_seed(seed, "C20", idx));
     let nt = rng.range(4, if tier == Tier::Thorough { 24 } else { 12 });
@@ -893,7 +969,9 @@ impl Property for C20 {
         }
     }
     fn generate(&self, seed: u64, idx: usize, tier: Tier) -> Value {
-        serde_json::to_value(gen_c20(seed, idx, tier)).unwrap()
+        let mut sc = gen_c20(seed, idx, tier);
+        c20_names_and_blanks(&mut sc, seed, idx);
+        serde_json::to_value(sc).unwrap()
     }
     fn execute(&self, v: &Value) -> Outcome {
         match serde_json::from_value::<C20Scenario>(v.clone()) {
